@@ -176,6 +176,11 @@ def cause_tag(rec, ds=None):
     strs = [f.name for f in blk.design if isinstance(f.name, str)]
     if len(set(strs)) != len(strs):
         return ":dupnames"      # Merge of blocks that desugared a weighted factor differently (C23 / C14)
+    import causes
+    if causes.derived_chain_in_crossing(rec["program"]):
+        # a crossed within-trial derived factor that reads another derived factor of the same crossing:
+        # combinations impossible only through the chain stay in the crossing (open findings of C02/C06/C09)
+        return ":derived-chain-in-crossing"
     if ds is not None:
         # where each crossing starts: code (preamble_size per crossing, times sustain) vs documentation-side semantics
         try:
@@ -382,7 +387,7 @@ def run(ctx, res):
         "generated_in_frag1": gen_thm.get("frag1", 0), "generated_in_frag0": gen_thm.get("frag0", 0),
         "share_of_generated_in_frag2": share("frag2"), "share_of_generated_in_frag1": share("frag1"),
         "share_of_generated_in_frag0": share("frag0"),
-        "note": "frag2 = Frag.frag2 (Properties/C04-C07 *_frag2; weights, further crossings, implied factors, within-trial derived factors in the sampled crossing, sustained further crossings), it contains Frag.frag1 (the *_partial theorems) which "
+        "note": "frag2 = Frag.frag2 (Properties/C04-C07 *_frag2; weights, further crossings, implied factors, within-trial derived factors of act_design in the sampled crossing or filled in after the draw, sustained further crossings), it contains Frag.frag1 (the *_partial theorems) which "
                 "contains the first fragment Frag.frag0; shares are over the gen_design.gen_program stream only (programs the "
                 "constructors reject count as outside); for the designs inside the fragment the executable statements of the "
                 "theorems - and the side condition FragSem.enumerates_b of the frag2 completeness / count theorems - were also "
